@@ -10,6 +10,7 @@ package plugin
 
 import (
 	"bufio"
+	"bytes"
 	"context"
 	"errors"
 	"fmt"
@@ -332,8 +333,29 @@ func mCopy(dst io.Writer, src io.Reader) (int64, error) {
 	}
 }
 
+var wBytesReaderG = map[*bytes.Reader]*wBytesReader{}
+
+type wBytesReader struct {
+	s    string
+	done bool
+}
+
+//verif:model bytes.NewReader
+func mBytesNewReader(b []byte) *bytes.Reader {
+	r := new(bytes.Reader)
+	wBytesReaderG[r] = &wBytesReader{s: string(b)}
+	return r
+}
+
 func wReadChunk(src io.Reader) (string, bool) {
 	switch r := src.(type) {
+	case *bytes.Reader:
+		g := wBytesReaderG[r]
+		if g == nil || g.done {
+			return "", false
+		}
+		g.done = true
+		return g.s, true
 	case *wPipe:
 		return r.read()
 	case *os.File:
